@@ -192,8 +192,12 @@ def f_num(rng, sid):
     sc.group()
     for k in range(rng.randint(1, 3)):
         sc.cmd(_numcmd(rng, sc, name=b"+N%d" % k))
+    ntargets = len(sc.cmds)
+    if rng.random() < 0.35:
+        for k in range(rng.randint(9, 40)):          # zero lanes behind a short argument text (see f_buf)
+            sc.cmd(Cmd(b"+Z%d" % k, None, "x", None))
     for _ in range(rng.randint(4, 14)):
-        ci = rng.randrange(len(sc.cmds))
+        ci = rng.randrange(ntargets)
         c = sc.cmds[ci]
         parts = []
         k = rng.choice([len(c.vars)] * 4 + [rng.randint(0, len(c.vars) + 1)])
@@ -269,13 +273,19 @@ def f_buf(rng, sid):
     sc.group()
     for k in range(rng.randint(1, 3)):
         sc.cmd(_numcmd(rng, sc, types=(3, 4, 3, 4, 1), name=b"+B%d" % k))
+    targets = list(sc.cmds)
+    if rng.random() < 0.35:
+        # a long table: the match-state lanes of the entries that do not match are zero bytes, and they lie right behind a short
+        # argument text (the text overwrites the first lanes only)
+        for k in range(rng.randint(9, 40)):
+            sc.cmd(Cmd(b"+Z%d" % k, None, "x", None))
     for _ in range(rng.randint(4, 14)):
-        c = rng.choice(sc.cmds)
+        c = rng.choice(targets)
         parts = []
         k = rng.choice([len(c.vars)] * 4 + [rng.randint(0, len(c.vars) + 1)])
         for i in range(k):
             v = c.vars[i] if i < len(c.vars) else c.vars[-1]
-            parts.append(gen.arg_for(rng, v))
+            parts.append(gen.arg_for(rng, v) if rng.random() < 0.9 else gen.arg_for(rng, v)[:rng.randint(0, 3)])     # short, often odd
         sc.inp(gen.sprinkle_cr(rng, b"AT" + c.name + b"=" + b",".join(parts)) + b"\n")
         drain(sc, 2500, "v=%s" % rng.choice(["0", "0", "0", "1"]))
     return sc
